@@ -34,6 +34,7 @@ CLI_VECTORS = [
     ["-m", "SYM"],
     ["-m", "GTR", "--brlenspr", "gammadir"],
     ["-m", "SRD06"],
+    ["-m", "SRD06", "-C", "4", "-I"],
     ["-m", "HKY", "--use_ambiguities"],
 ]
 
@@ -54,6 +55,8 @@ def pick(rng):
         return {"name": "shrinkage", "kind": "shrinkage"}
     if u < 0.66:
         return {"name": "timetree", "kind": "timetree"}
+    if u < 0.71:
+        return {"name": "sitemodels", "kind": "sitemodels"}
     i = rng.randint(0, len(CLI_VECTORS) - 1)
     sub = rng.choice(["mcmc", "mcmc", "advi"])
     return {"name": "cli:%s:%s" % (sub, " ".join(CLI_VECTORS[i])), "kind": "cli", "sub": sub, "args": CLI_VECTORS[i]}
@@ -89,6 +92,8 @@ def _build(recipe):
         return _shrinkage()
     if kind == "timetree":
         return _timetree()
+    if kind == "sitemodels":
+        return _sitemodels()
     raise ValueError(kind)
 
 
@@ -276,4 +281,18 @@ def _timetree():
         scenes.joint("joint", ["coal", "coal.int", "expcoal", "poisson", "ctmc"]),
     ]
     dom = {"heights": "ordered", "theta": "positive", "theta2": "positive", "growth": "real", "rate": "positive"}
+    return spec, dom
+
+
+def _sitemodels():
+    """Every among-site rate model with a relative-rate multiplier mu, standing alone."""
+    P = scenes.param
+    spec = [
+        {"id": "sm.const", "type": "ConstantSiteModel", "mu": P("c.mu", [1.3])},
+        {"id": "sm.inv", "type": "InvariantSiteModel", "invariant": P("i.p", [0.3]), "mu": P("i.mu", [0.8])},
+        {"id": "sm.w", "type": "WeibullSiteModel", "categories": 4, "shape": P("w.shape", [0.7]), "mu": P("w.mu", [1.5])},
+        {"id": "sm.wi", "type": "WeibullSiteModel", "categories": 3, "shape": P("wi.shape", [1.2]), "invariant": P("wi.p", [0.2]), "mu": P("wi.mu", [0.6])},
+        {"id": "sm.w0", "type": "WeibullSiteModel", "categories": 2, "shape": P("w0.shape", [0.4])},
+    ]
+    dom = {"c.mu": "positive", "i.p": "unit", "i.mu": "positive", "w.shape": "positive", "w.mu": "positive", "wi.shape": "positive", "wi.p": "unit", "wi.mu": "positive", "w0.shape": "positive"}
     return spec, dom
